@@ -150,10 +150,21 @@ class Property(cssutils.util.Base):
                 )
 
             if wellformed:
-                self.wellformed = True
-                self.name = nametokens
-                self.propertyValue = valuetokens
-                self.priority = prioritytokens
+                # keep the current state for the case that a part is refused
+                old = self.__dict__.copy()
+                oldseqs = list(self.seqs)
+                oldvalue = self.seqs[1].__dict__.copy()
+                try:
+                    self.wellformed = True
+                    self.name = nametokens
+                    self.propertyValue = valuetokens
+                    self.priority = prioritytokens
+                except Exception:
+                    # raising mode: name or value may have been set already
+                    self.__dict__.update(old)
+                    self.seqs[:] = oldseqs
+                    self.seqs[1].__dict__.update(oldvalue)
+                    raise
 
                 # also invalid values are set!
 
